@@ -55,6 +55,20 @@ def cases_from_edges(edges, rng):
     return paths, [cases[k] for k in sorted(cases)]
 
 
+def go_key(k):
+    """renterx Case.Key() -> case_key(): 'rpc/v0/[a b]' -> "rpc/v0/['a', 'b']" """
+    head, _, tail = k.partition("/[")
+    return "%s/%s" % (head, sorted(x for x in tail.rstrip("]").split(" ") if x))
+
+
+def flagged_keys(trace, res):
+    keys = {case_key(m["replay"]["case"]) for m in res["mismatches"]}
+    p = trace + ".flagged.json"
+    if os.path.exists(p):
+        keys |= {go_key(k) for k in (json.load(open(p)) or [])}
+    return sorted(keys)
+
+
 def leg_r(wd, tier, binary, verdict, stub="", cfg=None, only=None, tag=""):
     cfg = cfg or ("Renter_edges_quick.cfg" if tier == "quick" else "Renter_edges_thorough.cfg")
     r = vlib.run_tlc(wd, "MCRenter", cfg, workers=1, timeout=900)
@@ -86,6 +100,10 @@ def leg_r(wd, tier, binary, verdict, stub="", cfg=None, only=None, tag=""):
         raise vlib.Infra("the harness does not implement %d enumerated faults: %s" % (cnt["unknown_faults"], res["notes"][:5]))
     if cnt.get("noop_unbind") and not stub:
         raise vlib.Infra("%d result-bearing corruptions had no effect on the wire: %s" % (cnt["noop_unbind"], res["notes"][:5]))
+    if cnt.get("not_dialed") and not stub:
+        log("  R: note: %d servable cases ended without the client opening a stream" % cnt["not_dialed"])
+    if cnt.get("unservable_refused_locally"):
+        log("  R: %d unservable-input cases were refused by the client itself, without any exchange (correct)" % cnt["unservable_refused_locally"])
     log("  R: %d cases executed against the real client/server: %d ok, %d err, %d panic; %d corrupted exchanges rejected, "
         "%d corrupted-but-bound accepted, %d faults without effect (no-op or never read); %d mismatches, %.1fs" % (
             res["evaluations"], cnt.get("outcome_ok", 0), cnt.get("outcome_err", 0), cnt.get("outcome_panic", 0),
@@ -94,7 +112,7 @@ def leg_r(wd, tier, binary, verdict, stub="", cfg=None, only=None, tag=""):
     return dict(states=nst, edges=ned, paths=len(paths), covered=covered, cases=len(cases), steps=res["evaluations"],
                 distinct=res["distinct"], samples=res["samples"], counts=cnt, full=(covered == ned),
                 trace=os.path.join(wd, trace), case_list=cases, cfg=cfg, notes=res.get("notes") or [],
-                flagged=[case_key(m["replay"]["case"]) for m in res["mismatches"]])
+                flagged=flagged_keys(os.path.join(wd, trace), res))
 
 
 def trace_cfg(wd, cfg_edges):
